@@ -81,6 +81,10 @@ func (g *vfGen) tarArchive() []byte {
 		size := int64(0)
 		if tf == vtar.TypeReg {
 			size = int64(g.intn(700))
+		} else if g.intn(3) == 0 {
+			// a size on a member that has no content records (a directory with its allocation size, a device):
+			// the writer stores it verbatim
+			size = []int64{4096, 1 << 20, 512, 1}[g.intn(4)]
 		}
 		h := &vtar.Header{
 			Typeflag: tf, Name: string(name), Mode: int64(g.intn(0o7777)), Uid: g.intn(1 << 21), Gid: g.intn(1 << 21),
@@ -104,7 +108,7 @@ func (g *vfGen) tarArchive() []byte {
 			}
 		}
 		members++
-		if size > 0 {
+		if size > 0 && tf == vtar.TypeReg {
 			w.Write(g.bytes(int(size)))
 		}
 	}
